@@ -1,5 +1,6 @@
 import GmQuic.Drv.Core
 import GmQuic.Model.Sid
+import GmQuic.Model.StreamRules
 /-!
 Line driver for C12, run `C12i`: `ArcLocalStreamIds` and `ArcRemoteStreamIds` (exact comparison of every
 return value, every STREAMS_BLOCKED / MAX_STREAMS frame, the ids yielded by every `NeedCreate`, the wake
@@ -114,6 +115,93 @@ def step (st : St) (op : List String) : St × String :=
 
 def model : Model St := { init := {}, step := exact step }
 
-def entries : List (String × IO UInt32) := [("C12i", runModel model), ("C12x", runModel model)]
+/-! ## C12e / C12d: one real `DataStreams` endpoint
+
+    einit <c|s> <local bi> <local uni> <peer bi> <peer uni> <wbl>,<wbr>,<wu> <strategy>
+    open <bi|uni> | stream <sid> <off> <len> <0|1> | reset <sid> <final> | stop <sid> | maxsd <sid> <v>
+    sdb <sid> <v> | maxstreams <bi|uni> <v> | blocked <bi|uni> <v> | drain
+-/
+open GmQuic.StreamRules
+
+def dirTok : Dir → String | .bi => "bi" | .uni => "uni"
+
+def idList (l : List Nat) : String := if l.isEmpty then "-" else ",".intercalate (l.map toString)
+
+def errTok : ErrKind → String
+  | .streamLimit => "StreamLimit" | .streamState => "StreamState"
+  | .finalSize => "FinalSize" | .flowControl => "FlowControl"
+
+def eObs : EObs → String
+  | .sid s => s!"sid={s}"
+  | .pending sb => s!"pending sb={sb}"
+  | .exhausted => "none"
+  | .ok n ms => s!"ok={n}" ++ String.join (ms.map fun x => s!" ms={dirTok x.1}:{x.2}")
+  | .err k => s!"err {errTok k}"
+  | .offered b u => s!"bi={idList b} uni={idList u}"
+  | .panic => "PANIC"
+
+def doE (st : Option Endpoint) (op : EOp) : Option Endpoint × String :=
+  match st with
+  | none => (st, "BAD no einit")
+  | some e =>
+    let (e', o) := e.step op
+    (some e', eObs o)
+
+def parseWin (s : String) : Option Windows :=
+  match (s.splitOn ",").map String.toNat? with
+  | [some a, some b, some c] => some ⟨a, b, c⟩
+  | _ => none
+
+def stepE (st : Option Endpoint) (op : List String) : Option Endpoint × String :=
+  match op with
+  | ["einit", role, lb, lu, pb, pu, win, strat] =>
+    match parseRole role, lb.toNat?, lu.toNat?, pb.toNat?, pu.toNat?, parseWin win with
+    | some role, some lb, some lu, some pb, some pu, some win =>
+      match parseStrategy strat lb lu with
+      | some k =>
+        match Endpoint.new role lb lu pb pu win k with
+        | some e => (some e, "ok")
+        | none => (none, "PANIC")
+      | none => (st, "BAD strategy")
+    | _, _, _, _, _, _ => (st, "BAD einit")
+  | ["open", d] =>
+    match parseDir d with
+    | some d => doE st (.open_ d)
+    | none => (st, "BAD open")
+  | ["stream", s, off, len, fin] =>
+    match s.toNat?, off.toNat?, len.toNat?, fin.toNat? with
+    | some s, some off, some len, some fin => doE st (.frame .stream s off len (fin != 0))
+    | _, _, _, _ => (st, "BAD stream")
+  | ["reset", s, f] =>
+    match s.toNat?, f.toNat? with
+    | some s, some f => doE st (.frame .resetStream s f 0 false)
+    | _, _ => (st, "BAD reset")
+  | ["stop", s] =>
+    match s.toNat? with
+    | some s => doE st (.frame .stopSending s 0 0 false)
+    | none => (st, "BAD stop")
+  | ["maxsd", s, v] =>
+    match s.toNat?, v.toNat? with
+    | some s, some v => doE st (.frame .maxStreamData s v 0 false)
+    | _, _ => (st, "BAD maxsd")
+  | ["sdb", s, v] =>
+    match s.toNat?, v.toNat? with
+    | some s, some v => doE st (.frame .streamDataBlocked s v 0 false)
+    | _, _ => (st, "BAD sdb")
+  | ["maxstreams", d, v] =>
+    match parseDir d, v.toNat? with
+    | some d, some v => doE st (.maxStreams d v)
+    | _, _ => (st, "BAD maxstreams")
+  | ["blocked", d, v] =>
+    match parseDir d, v.toNat? with
+    | some d, some v => doE st (.streamsBlocked d v)
+    | _, _ => (st, "BAD blocked")
+  | ["drain"] => doE st .drain
+  | _ => (st, "BAD op")
+
+def modelE : Model (Option Endpoint) := { init := none, step := exact stepE }
+
+def entries : List (String × IO UInt32) :=
+  [("C12i", runModel model), ("C12x", runModel model), ("C12e", runModel modelE), ("C12d", runModel modelE)]
 
 end GmQuic.Drv.C12
